@@ -88,6 +88,16 @@ func explainStmt(src string) (text string, status string) {
 			text, status = fmt.Sprint(r), "PANIC"
 		}
 	}()
+	// a template that starts with #last# is a SCRIPT: the statement with the hole is the last one, the statements before it
+	// (valid ones, or ones that fail and leave parse errors behind) must not change how it is parsed
+	if strings.HasPrefix(src, "#last#") {
+		stmts, _ := parser.Parse(context.Background(), rdr.For(strings.TrimPrefix(src, "#last#")))
+		if len(stmts) == 0 {
+			return "no statements", "ERR"
+		}
+		last := stmts[len(stmts)-1]
+		return rdr.Twice(func() string { return parser.Explain(last) }), "OK"
+	}
 	stmts, err := parser.Parse(context.Background(), rdr.For(src))
 	if err != nil {
 		return err.Error(), "ERR"
